@@ -244,7 +244,7 @@ class C42(core.Check):
     PROPS = 'props/C42.v'
     MODEL_IMPORTS = ['gen.Gen_play', 'model.Play']
     QUICK_CASES = 800
-    THOROUGH_CASES = 20000
+    THOROUGH_CASES = 12000
     # std-lib axioms behind Coq's real numbers and the `interval` tactic; they occur ONLY in C42_freq_table
     # (and C42_freq_A440 / C42_freq_octaves for the Reals axioms); every other theorem is closed
     ALLOWED_AXIOMS = set(
